@@ -112,77 +112,80 @@ def run(ctx):
         if rs is None or not rs.ok: continue
         done += 1
         k = m['kind']; key = 'c20/' + r.name[2:]; w = r.code
-        if k in ('checked', 'checked1'):
-            K = m['K']; a = vsyms('a0', K); b = vsyms('a1', K) if k == 'checked' else None
-            n = len(a)
-            rr = [ext_atom(m['tr'], m['f'], 'i32', *( (a[i], b[i]) if b else (a[i],) )) for i in range(n)]
-            preds = [opt_pred(x) for x in rr]
-            all_or_none(ctx, key, rs, preds, 'paths: checked lift is None exactly when some element is None', w, lambda p: isinstance(p.ret, Enum) and p.ret.var == 1)
-            for p in rs.paths:
-                if p.out == 'ret' and isinstance(p.ret, Enum) and p.ret.var == 1:
-                    vec_eq(ctx, key + '/value', p.ret.fields[0], [opt_payload(x) for x in rr], 'alg=: element i is the unwrapped scalar result on (a[i], b[i])', w)
-        elif k in ('plain', 'plain1'):
-            K = m['K']; a = vsyms('a0', K); b = vsyms('a1', K) if k == 'plain' else None
-            p = rs.only()
-            vec_eq(ctx, key, p.ret, [ext_atom(m['tr'], m['f'], 'i32', *((a[i], b[i]) if b else (a[i],))) for i in range(len(a))], 'alg=: lifted operation is the scalar operation per element', w)
-        elif k == 'ovf':
-            K = m['K']; a = vsyms('a0', K); b = vsyms('a1', K); p = rs.only()
-            rr = [ext_atom(m['tr'], m['f'], 'i32', a[i], b[i]) for i in range(len(a))]
-            val, flag = p.ret
-            vec_eq(ctx, key + '/value', val, [fn('ret:0', x) for x in rr], 'alg=: wrapped value per element', w)
-            want = [as_bool(fn('ret:1', x)) for x in rr]
-            got = [g for g in conj_leaves(flag, 'or') if not (isinstance(g, B) and g.k == 'const' and g.a[0] is False)] if isinstance(flag, B) else [flag]
-            ok = len(got) == len(want) and all(any(g == x for g in got) for x in want) and all(any(g == x for x in want) for g in got)
-            ctx.ob(key + '/flag', ok, 'alg=: overflow flag is the OR of the per-element flags', w, [str(x) for x in want][:4], str(flag)[:300])
-        elif k == 'inv':
-            K = m['K']; a = vsyms('a0', K); p = rs.only()
-            vec_eq(ctx, key, p.ret, [C(1) / x for x in a], 'alg=: reciprocal per element', w)
-        elif k == 'const':
-            p = rs.only()
-            vec_eq(ctx, key, p.ret, [C(m['c'])] * vdim(m['K']), 'const: Zero/One', w)
-        elif k == 'is_zero':
-            a = vsyms('a0', m['K'])
-            preds = [eq(x, C(0)) for x in a]
-            all_or_none(ctx, key, rs, preds, 'paths: is_zero iff all elements are zero', w, lambda p: truth(p.ret))
-        elif k == 'as':
-            a = vsyms('a0', m['K']); p = rs.only()
-            vec_eq(ctx, key, p.ret, [fn('tofloat', x) for x in a], 'alg=: as_ converts each element by the scalar rule', w)
-        elif k == 'numcast':
-            a = vsyms('a0', m['K'])
-            rr = [fn('numcast:u8', x) for x in a]
-            preds = [opt_pred(x) for x in rr]
-            all_or_none(ctx, key, rs, preds, 'paths: numcast is None exactly when some element fails', w, lambda p: isinstance(p.ret, Enum) and p.ret.var == 1)
-            for p in rs.paths:
-                if p.out == 'ret' and isinstance(p.ret, Enum) and p.ret.var == 1:
-                    vec_eq(ctx, key + '/value', p.ret.fields[0], [opt_payload(x) for x in rr], 'alg=: element i is the converted a[i]', w)
-        elif k in ('approx', 'approx_mat', 'approx_quat'):
-            if k == 'approx':
-                a = vsyms('a0', m['K']); b = vsyms('a1', m['K'])
-            elif k == 'approx_mat':
-                a = sum(msyms('a0', m['l'], m['n']), []); b = sum(msyms('a1', m['l'], m['n']), [])
-            else:
-                a = [sym('a0.' + f) for f in 'xyzw']; b = [sym('a1.' + f) for f in 'xyzw']
-            extra = [sym('a2')] + ([sym('a3')] if m['f'] != 'abs_diff_eq' else [])
-            preds = [as_bool(fn('approx:' + m['f'], x, y, *extra)) for x, y in zip(a, b)]
-            all_or_none(ctx, key, rs, preds, 'paths: approximate equality holds exactly when it holds for every element pair (tolerances forwarded unchanged)', w, lambda p: truth(p.ret))
-        elif k == 'mat_as':
-            A = msyms('a0', m['l'], m['n']); p = rs.only()
-            grid_eq(ctx, key, mgrid(p.ret, m['l'], m['n']), [[fn('tofloat', x) for x in row] for row in A], 'alg=: matrix as_ converts element (i,j) by the scalar rule', w)
-        elif k == 'mat_numcast':
-            n = m['n']; A = msyms('a0', m['l'], n)
-            flat = sum(A, [])
-            preds = [opt_pred(fn('numcast:u8', x)) for x in flat]
-            all_or_none(ctx, key, rs, preds, 'paths: matrix numcast is None exactly when some element fails', w, lambda p: isinstance(p.ret, Enum) and p.ret.var == 1)
-            for p in rs.paths:
-                if p.out == 'ret' and isinstance(p.ret, Enum) and p.ret.var == 1:
-                    grid_eq(ctx, key + '/value', mgrid(p.ret.fields[0], m['l'], n), [[opt_payload(fn('numcast:u8', x)) for x in row] for row in A], 'alg=: element (i,j) is the converted a(i,j)', w)
-        elif k == 'defeps':
-            p = rs.only(); e, mr, mu = p.ret
-            from ..alg import named
-            ctx.same(key + '/eps', e, named('eps:f32'), 'deleg: default tolerances are the scalar defaults', w)
-            ctx.same(key + '/maxrel', mr, named('eps:f32'), 'deleg: default tolerances are the scalar defaults', w)
-            ctx.same(key + '/ulps', mu, named('max_ulps'), 'deleg: default tolerances are the scalar defaults', w)
-        elif k == 'as_shape':
-            p = rs.only()
-            vec_eq(ctx, key, p.ret, [fn('tofloat', sym('a0.' + f)) for f in m['flds']], 'alg=: shape as_ converts each field by the scalar rule', w)
+        try:
+            if k in ('checked', 'checked1'):
+                K = m['K']; a = vsyms('a0', K); b = vsyms('a1', K) if k == 'checked' else None
+                n = len(a)
+                rr = [ext_atom(m['tr'], m['f'], 'i32', *( (a[i], b[i]) if b else (a[i],) )) for i in range(n)]
+                preds = [opt_pred(x) for x in rr]
+                all_or_none(ctx, key, rs, preds, 'paths: checked lift is None exactly when some element is None', w, lambda p: isinstance(p.ret, Enum) and p.ret.var == 1)
+                for p in rs.paths:
+                    if p.out == 'ret' and isinstance(p.ret, Enum) and p.ret.var == 1:
+                        vec_eq(ctx, key + '/value', p.ret.fields[0], [opt_payload(x) for x in rr], 'alg=: element i is the unwrapped scalar result on (a[i], b[i])', w)
+            elif k in ('plain', 'plain1'):
+                K = m['K']; a = vsyms('a0', K); b = vsyms('a1', K) if k == 'plain' else None
+                p = rs.only()
+                vec_eq(ctx, key, p.ret, [ext_atom(m['tr'], m['f'], 'i32', *((a[i], b[i]) if b else (a[i],))) for i in range(len(a))], 'alg=: lifted operation is the scalar operation per element', w)
+            elif k == 'ovf':
+                K = m['K']; a = vsyms('a0', K); b = vsyms('a1', K); p = rs.only()
+                rr = [ext_atom(m['tr'], m['f'], 'i32', a[i], b[i]) for i in range(len(a))]
+                val, flag = p.ret
+                vec_eq(ctx, key + '/value', val, [fn('ret:0', x) for x in rr], 'alg=: wrapped value per element', w)
+                want = [as_bool(fn('ret:1', x)) for x in rr]
+                got = [g for g in conj_leaves(flag, 'or') if not (isinstance(g, B) and g.k == 'const' and g.a[0] is False)] if isinstance(flag, B) else [flag]
+                ok = len(got) == len(want) and all(any(g == x for g in got) for x in want) and all(any(g == x for x in want) for g in got)
+                ctx.ob(key + '/flag', ok, 'alg=: overflow flag is the OR of the per-element flags', w, [str(x) for x in want][:4], str(flag)[:300])
+            elif k == 'inv':
+                K = m['K']; a = vsyms('a0', K); p = rs.only()
+                vec_eq(ctx, key, p.ret, [C(1) / x for x in a], 'alg=: reciprocal per element', w)
+            elif k == 'const':
+                p = rs.only()
+                vec_eq(ctx, key, p.ret, [C(m['c'])] * vdim(m['K']), 'const: Zero/One', w)
+            elif k == 'is_zero':
+                a = vsyms('a0', m['K'])
+                preds = [eq(x, C(0)) for x in a]
+                all_or_none(ctx, key, rs, preds, 'paths: is_zero iff all elements are zero', w, lambda p: truth(p.ret))
+            elif k == 'as':
+                a = vsyms('a0', m['K']); p = rs.only()
+                vec_eq(ctx, key, p.ret, [fn('tofloat', x) for x in a], 'alg=: as_ converts each element by the scalar rule', w)
+            elif k == 'numcast':
+                a = vsyms('a0', m['K'])
+                rr = [fn('numcast:u8', x) for x in a]
+                preds = [opt_pred(x) for x in rr]
+                all_or_none(ctx, key, rs, preds, 'paths: numcast is None exactly when some element fails', w, lambda p: isinstance(p.ret, Enum) and p.ret.var == 1)
+                for p in rs.paths:
+                    if p.out == 'ret' and isinstance(p.ret, Enum) and p.ret.var == 1:
+                        vec_eq(ctx, key + '/value', p.ret.fields[0], [opt_payload(x) for x in rr], 'alg=: element i is the converted a[i]', w)
+            elif k in ('approx', 'approx_mat', 'approx_quat'):
+                if k == 'approx':
+                    a = vsyms('a0', m['K']); b = vsyms('a1', m['K'])
+                elif k == 'approx_mat':
+                    a = sum(msyms('a0', m['l'], m['n']), []); b = sum(msyms('a1', m['l'], m['n']), [])
+                else:
+                    a = [sym('a0.' + f) for f in 'xyzw']; b = [sym('a1.' + f) for f in 'xyzw']
+                extra = [sym('a2')] + ([sym('a3')] if m['f'] != 'abs_diff_eq' else [])
+                preds = [as_bool(fn('approx:' + m['f'], x, y, *extra)) for x, y in zip(a, b)]
+                all_or_none(ctx, key, rs, preds, 'paths: approximate equality holds exactly when it holds for every element pair (tolerances forwarded unchanged)', w, lambda p: truth(p.ret))
+            elif k == 'mat_as':
+                A = msyms('a0', m['l'], m['n']); p = rs.only()
+                grid_eq(ctx, key, mgrid(p.ret, m['l'], m['n']), [[fn('tofloat', x) for x in row] for row in A], 'alg=: matrix as_ converts element (i,j) by the scalar rule', w)
+            elif k == 'mat_numcast':
+                n = m['n']; A = msyms('a0', m['l'], n)
+                flat = sum(A, [])
+                preds = [opt_pred(fn('numcast:u8', x)) for x in flat]
+                all_or_none(ctx, key, rs, preds, 'paths: matrix numcast is None exactly when some element fails', w, lambda p: isinstance(p.ret, Enum) and p.ret.var == 1)
+                for p in rs.paths:
+                    if p.out == 'ret' and isinstance(p.ret, Enum) and p.ret.var == 1:
+                        grid_eq(ctx, key + '/value', mgrid(p.ret.fields[0], m['l'], n), [[opt_payload(fn('numcast:u8', x)) for x in row] for row in A], 'alg=: element (i,j) is the converted a(i,j)', w)
+            elif k == 'defeps':
+                p = rs.only(); e, mr, mu = p.ret
+                from ..alg import named
+                ctx.same(key + '/eps', e, named('eps:f32'), 'deleg: default tolerances are the scalar defaults', w)
+                ctx.same(key + '/maxrel', mr, named('eps:f32'), 'deleg: default tolerances are the scalar defaults', w)
+                ctx.same(key + '/ulps', mu, named('max_ulps'), 'deleg: default tolerances are the scalar defaults', w)
+            elif k == 'as_shape':
+                p = rs.only()
+                vec_eq(ctx, key, p.ret, [fn('tofloat', sym('a0.' + f)) for f in m['flds']], 'alg=: shape as_ converts each field by the scalar rule', w)
+        except AssertionError as e:
+            ctx.ob(key + '/paths', False, 'path structure: the analysed function has the expected (branch-free / enumerated) shape', w, 'analysable', str(e))
     ctx.floor('roots analysed', done, len(roots))
